@@ -107,8 +107,8 @@ template <class G> struct C12 {
       P r = X.act(p, Jm, Jv);
       typename GD::Vector pd; for (int i = 0; i < G::Dim; ++i) pd(i) = Du(p(i));
       typename GD::Vector rd = Xd.act(pd);
-      cmpPrimal("act", Xd0.act(pd), r, std::max(L, (ref::Real)p.cwiseAbs().maxCoeff()), key);
-      cmpJ("act.Jm", jac_of(rd), vf::toLM(Jm), rowP, std::max(L, (ref::Real)p.cwiseAbs().maxCoeff()), key); }
+      cmpPrimal("act", Xd0.act(pd), r, std::max(L, (ref::Real)vf::maxabs(p)), key);
+      cmpJ("act.Jm", jac_of(rd), vf::toLM(Jm), rowP, std::max(L, (ref::Real)vf::maxabs(p)), key); }
     // the remaining tangent-side quantities only need to instantiate and keep their primal
     { TD z = td0; cmpPrimal("rjac(0,0)", z.rjac().col(0), t.rjac().col(0), L, key); cmpPrimal("ljacinv(0,0)", z.ljacinv().col(0), t.ljacinv().col(0), L, key);
       cmpPrimal("smallAdj", z.smallAdj().col(0), t.smallAdj().col(0), L, key); cmpPrimal("adj", Xd0.adj().col(0), X.adj().col(0), L, key);
@@ -146,7 +146,7 @@ template <class G> struct C12 {
       GD Xd = liftG(X) + seed(); Du rd; ob(Xd.data(), &rd);
       Du ed = (Y.template cast<Du>() - Xd).coeffs().norm() * Du(2.5);
       // (the derivative of a norm at 0 is NaN in both: the functor must reproduce the documented expression, NaN for NaN)
-      double dv = same_dual(rd, ed) ? 0 : std::fabs(rd.a - ed.a) / std::max(1.0, std::fabs(e)) + (rd.v - ed.v).cwiseAbs().maxCoeff() / std::max(1.0, (double)ed.v.cwiseAbs().maxCoeff());
+      double dv = same_dual(rd, ed) ? 0 : std::fabs(rd.a - ed.a) / std::max(1.0, std::fabs(e)) + vf::maxabs((rd.v - ed.v)) / std::max(1.0, (double)vf::maxabs(ed.v));
       close(dv, 1e-12L, "functor_computes_documented_residual", "objective<Dual>/" + key);
     }
     // constraint: sqrt_info * (m - (future (-) past))
@@ -154,11 +154,11 @@ template <class G> struct C12 {
       manif::CeresConstraintFunctor<G> cf(t);
       T r; cf(X.data(), Y.data(), r.data());
       T e = t - (Y - X);
-      close((ref::Real)(r.coeffs() - e.coeffs()).cwiseAbs().maxCoeff() / std::max((ref::Real)1, (ref::Real)e.coeffs().cwiseAbs().maxCoeff()), 1e-13L, "functor_computes_documented_residual", "constraint<double>/" + key);
+      close((ref::Real)vf::maxabs((r.coeffs() - e.coeffs())) / std::max((ref::Real)1, (ref::Real)vf::maxabs(e.coeffs())), 1e-13L, "functor_computes_documented_residual", "constraint<double>/" + key);
       GD Xd = liftG(X) + seed(), Yd = liftG(Y); TD rd; cf(Xd.data(), Yd.data(), rd.data());
       TD ed = t.template cast<Du>() - (Yd - Xd);
-      double dv = 0; for (int i = 0; i < D; ++i) dv = std::max(dv, std::max(std::fabs(rd.coeffs()(i).a - ed.coeffs()(i).a), (double)(rd.coeffs()(i).v - ed.coeffs()(i).v).cwiseAbs().maxCoeff()));
-      close(dv / std::max((ref::Real)1, (ref::Real)e.coeffs().cwiseAbs().maxCoeff()), 1e-12L, "functor_computes_documented_residual", "constraint<Dual>/" + key);
+      double dv = 0; for (int i = 0; i < D; ++i) dv = std::max(dv, std::max(std::fabs(rd.coeffs()(i).a - ed.coeffs()(i).a), (double)vf::maxabs((rd.coeffs()(i).v - ed.coeffs()(i).v))));
+      close(dv / std::max((ref::Real)1, (ref::Real)vf::maxabs(e.coeffs())), 1e-12L, "functor_computes_documented_residual", "constraint<Dual>/" + key);
     }
   }
   template <class F> void manifold_plus(const F& lp, const G& X, const T& t, const std::string& key, const char* name) {
